@@ -24,7 +24,10 @@ def owner_of(f):
         return "C03"
     if f["stage"] == "handle":
         # "independent of how many handles": a handle that reports something else than the file does
-        return "C05" if "links:" in f["detail"].get("gpath", "") or "metadata" in f["detail"].get("gpath", "") else "C02"
+        gp = f["detail"].get("gpath", "")
+        if "@pos" in gp:
+            return "C03"          # positional indexing disagrees with iteration
+        return "C05" if "links:" in gp or "metadata" in gp else "C02"
     if f["stage"] == "search":
         return "C13"
     if f["stage"] == "stamps":
